@@ -1,2 +1,184 @@
-(* C08 -- placeholder *)
-From MsiModel Require Import Base Package.
+(* C08 -- Saved files are well-formed MSI databases with exact string accounting.
+   C08_reachable_accounting: in every reachable state the pool is well-formed (16-bit counts; a count is zero exactly
+   when the text is empty: unused entries are empty, no live entry is the empty string), the reference count of every
+   entry equals the number of cells of ALL tables (catalog tables included) that refer to it, and the catalog tables hold
+   exactly the rows describing the existing tables (columns numbered 1..n by columns_rows).  What a save writes is
+   write_pool / write_data of that pool and write_rows of those rows (disk_ok in the invariant; C08_saved): a table
+   stream is rows x row-width bytes, column-major, integers offset-binary with zero = null, string references naming live
+   entries (row_ok).  After drop_table the table's stream is gone and accounting is exact again, so no text of its rows
+   remains (their entries reached count zero and were cleared).  The independent decoder tools/msidec.py checks the same
+   facts on every saved file of the correspondence run.
+   Statements only; every proof is `exact <lemma>` from theories/. *)
+From Coq Require Import Sorting.Sorted Permutation.
+From MsiModel Require Import Base Sexp Value Expr Category Column CodePage Pool Table Container StreamName Propset Summary Query Package PoolProofs TableProofs QueryProofs DbInv CatalogProofs PropsetCodecProofs PackageProofs PkgInv UpdateRefine PkgInv2 InsertRefine DeleteRefine DmlPkgProofs DropTableProofs MiscOpsProofs ReopenProofs CreateTableLemmas CreateTableProofs StreamProofs Reach KnownFindings.
+From MsiGen Require Import GenConsts GenCatalog GenStreamName.
+Open Scope N_scope.
+
+(* the property, for every reachable package *)
+Theorem C08_reachable_accounting :
+  forall (prof : profile) (k : pkg),
+         reachable prof k ->
+         pool_wf (k_pool k) /\
+         (forall r : N, 0 < r -> refcount (k_pool k) r = occ r (all_rows (k_cont k) (k_tabs k))) /\ catalog_ok prof k.
+Proof. exact reachable_accounting. Qed.
+
+(* the saved state: same content, pool streams = write_pool / write_data of the accounted pool *)
+Theorem C08_saved :
+  forall (prof : profile) (k k1 : pkg),
+         PInv prof k ->
+         pkg_flush k = Some k1 ->
+         PInv prof k1 /\
+         same_obs prof k k1 /\
+         k_pool k1 = pool_mark_unmodified (k_pool k) /\
+         k_fin k1 = false /\ k_sum_mod k1 = false /\ p_mod (k_pool k1) = false.
+Proof. exact flush_spec. Qed.
+
+(* a table stream is a whole number of column-major rows and decodes to the rows written *)
+Theorem C08_stream_shape :
+  forall (prof : profile) (t : table) (rows : list (list vref)),
+         t_cols t <> [] ->
+         Forall (row_ok t) rows ->
+         nlen rows <= MAX_ROWS_READ ->
+         exists bs : bytes,
+           write_rows prof t rows = Ok bs /\ nlen bs = nlen rows * row_size t /\ read_rows t bs = Ok rows.
+Proof. exact rows_roundtrip. Qed.
+
+(* offset-binary integers, zero = null, references of the pool's width *)
+Theorem C08_cells :
+  forall (prof : profile) (t : coltype) (long : bool) (v : vref) (bs : bytes) (rest : list N),
+         cell_ok t long v ->
+         write_cell prof t long v = Ok bs -> read_cell t long (bs ++ rest) = Ok (v, rest) /\ nlen bs = ct_width t long.
+Proof. exact cell_roundtrip. Qed.
+
+(* interning: exactly one count more at exactly one entry, pool stays well-formed *)
+Theorem C08_incref :
+  forall (prof : profile) (p : pool) (s : list N) (p' : pool) (r : N),
+         pool_wf p ->
+         s <> [] ->
+         forallb is_scalar s = true ->
+         utf8_len s < 4294967296 ->
+         pool_incref prof p s = Ok (p', r) ->
+         pool_wf p' /\
+         live p' r s /\
+         total_refs p' = total_refs p + 1 /\
+         refcount p' r = refcount p r + 1 /\
+         (forall r' : N, r' <> r -> r' <> 0 \/ r <> 1 -> refcount p' r' = refcount p r') /\
+         (forall (r' : N) (s' : str), live p r' s' -> live p' r' s') /\
+         p_cp p' = p_cp p /\ p_long p' = p_long p /\ p_mod p' = true.
+Proof. exact incref_spec. Qed.
+
+(* releasing: exactly one count less; at zero the text is cleared *)
+Theorem C08_decref :
+  forall (prof : profile) (p : pool) (r : N) (s : str),
+         pool_wf p ->
+         live p r s ->
+         r <= MAX_STRING_REF ->
+         exists p' : pool,
+           pool_decref prof p r = Ok p' /\
+           pool_wf p' /\
+           total_refs p' + 1 = total_refs p /\
+           refcount p' r + 1 = refcount p r /\
+           (forall r' : N, r' <> r -> r' <> 0 \/ r <> 1 -> refcount p' r' = refcount p r') /\
+           (forall (r' : N) (s' : str), r' <> r -> live p r' s' -> live p' r' s') /\
+           (1 < refcount p r -> live p' r s) /\ p_cp p' = p_cp p /\ p_long p' = p_long p.
+Proof. exact decref_spec. Qed.
+
+(* INSERT keeps the invariant (exact accounting) *)
+Theorem C08_insert_accounting :
+  forall (prof : profile) (d : db) (tn : str) (t : table) (rows : list (list value)) 
+           (c' : container) (p' : pool),
+         Inv' d ->
+         Forall (Forall value_storable) rows ->
+         In (tn, t) (d_tabs d) ->
+         find_table (d_tabs d) tn = Some t ->
+         exec_insert prof (d_cont d) (d_pool d) (d_tabs d) tn rows = Ok (c', p') ->
+         let d' := {| d_cont := c'; d_pool := p'; d_tabs := d_tabs d |} in
+         Inv' d' /\
+         (exists old new : list (list value),
+            tvals prof d t = Ok old /\
+            tvals prof d' t = Ok new /\
+            Permutation new (old ++ map (map normalize_value) rows) /\
+            sorted_by_key t new /\ (rows_valid t old -> rows_valid t new)) /\
+         (forall (n' : str) (t' : table), In (n', t') (d_tabs d) -> n' <> tn -> tvals prof d' t' = tvals prof d t') /\
+         (forall s : str,
+          name_eqb s (stream_name_of t) = false -> ct_find (ct_entries c') s = ct_find (ct_entries (d_cont d)) s) /\
+         ct_clsid c' = ct_clsid (d_cont d).
+Proof. exact insert_refines. Qed.
+
+Theorem C08_update_accounting :
+  forall (prof : profile) (d : db) (tn : str) (t : table) (ups : list (str * value)) 
+           (cond : option ast) (c' : container) (p' : pool),
+         UpdateRefine.Inv' d ->
+         ups_wf ups ->
+         In (tn, t) (d_tabs d) ->
+         find_table (d_tabs d) tn = Some t ->
+         exec_update prof (d_cont d) (d_pool d) (d_tabs d) tn ups cond = Ok (c', p') ->
+         let d' := {| d_cont := c'; d_pool := p'; d_tabs := d_tabs d |} in
+         UpdateRefine.Inv' d' /\
+         (exists old new : list (list value),
+            tvals prof d t = Ok old /\
+            tvals prof d' t = Ok new /\
+            (if touches_key t ups
+             then Permutation new (map (upd_row t ups cond) old) /\ sorted_by_key t new
+             else new = map (upd_row t ups cond) old) /\ (rows_valid t old -> rows_valid t new)) /\
+         (forall (n' : str) (t' : table), In (n', t') (d_tabs d) -> n' <> tn -> tvals prof d' t' = tvals prof d t') /\
+         (forall s : str,
+          name_eqb s (stream_name_of t) = false -> ct_find (ct_entries c') s = ct_find (ct_entries (d_cont d)) s) /\
+         ct_clsid c' = ct_clsid (d_cont d).
+Proof. exact update_refines. Qed.
+
+Theorem C08_delete_accounting :
+  forall (prof : profile) (d : db) (tn : str) (t : table) (cond : option ast) (c' : container) (p' : pool),
+         Inv d ->
+         In (tn, t) (d_tabs d) ->
+         find_table (d_tabs d) tn = Some t ->
+         exec_delete prof (d_cont d) (d_pool d) (d_tabs d) tn cond = Ok (c', p') ->
+         let d' := {| d_cont := c'; d_pool := p'; d_tabs := d_tabs d |} in
+         Inv d' /\
+         (exists old : list (list value),
+            tvals prof d t = Ok old /\
+            tvals prof d' t = Ok (filter (fun r : list value => negb (holds_v t cond r)) old)) /\
+         (forall (n' : str) (t' : table), In (n', t') (d_tabs d) -> n' <> tn -> tvals prof d' t' = tvals prof d t') /\
+         (forall s : str,
+          name_eqb s (stream_name_of t) = false -> ct_find (ct_entries c') s = ct_find (ct_entries (d_cont d)) s) /\
+         ct_clsid c' = ct_clsid (d_cont d).
+Proof. exact delete_refines. Qed.
+
+(* drop_table: stream removed, catalog rows removed, accounting exact (nothing leaks) *)
+Theorem C08_drop_releases :
+  forall (prof : profile) (k : pkg) (tn : str) (k' : pkg),
+         PInv2 prof k ->
+         pkg_drop_table prof k tn = (k', Ok tt) ->
+         PInv2 prof k' /\
+         find_table (k_tabs k') tn = None /\
+         (forall n : str, n <> tn -> find_table (k_tabs k') n = find_table (k_tabs k) n) /\
+         (forall e : str * table,
+          In e (k_tabs k) ->
+          is_core (fst e) = false ->
+          fst e <> VALIDATION_TABLE_NAME ->
+          fst e <> tn -> tvals prof (the_db k') (snd e) = tvals prof (the_db k) (snd e)) /\
+         ct_find (ct_entries (k_cont k')) (sn_encode tn true) = None /\
+         k_type k' = k_type k /\
+         k_sum k' = k_sum k /\
+         pkg_streams k' = pkg_streams k /\
+         (forall n : str,
+          sn_is_valid n false = true ->
+          ct_find (ct_entries (k_cont k')) (sn_encode n false) = ct_find (ct_entries (k_cont k)) (sn_encode n false)).
+Proof. exact drop_table_ok. Qed.
+
+(* no table stream without a table *)
+Theorem C08_no_orphans :
+  forall (prof : profile) (k : pkg), reachable prof k -> no_orphans k.
+Proof. exact reachable_no_orphans. Qed.
+
+Print Assumptions C08_reachable_accounting.
+Print Assumptions C08_saved.
+Print Assumptions C08_stream_shape.
+Print Assumptions C08_cells.
+Print Assumptions C08_incref.
+Print Assumptions C08_decref.
+Print Assumptions C08_insert_accounting.
+Print Assumptions C08_update_accounting.
+Print Assumptions C08_delete_accounting.
+Print Assumptions C08_drop_releases.
+Print Assumptions C08_no_orphans.
